@@ -80,7 +80,7 @@ def tnJson : Option String → Json
 
 partial def obsJson : Obs → Json
   | .missing => Json.str "missing"
-  | .node kind tn ns attrs verd orig fields ext flat col =>
+  | .node kind tn ns attrs verd orig fields ext flat col subs =>
     Json.mkObj [("kind", Json.str (kindStr kind)), ("tn", tnJson tn),
       ("ns", match ns with | some s => Json.str s | none => Json.null),
       ("attrs", Json.arr (attrs.map (fun p => Json.arr #[Json.str p.1, avalJson p.2])).toArray),
@@ -91,6 +91,9 @@ partial def obsJson : Obs → Json
       ("flat", Json.arr (flat.map Json.str).toArray),
       ("col", match col with
         | some d => Json.arr (d.map (fun p => Json.arr #[Json.str p.1, avalJson p.2])).toArray
+        | none => Json.null),
+      ("subs", match subs with
+        | some l => Json.arr (l.map tnJson).toArray
         | none => Json.null)]
 
 /-- pool indices -> class ids -/
